@@ -590,6 +590,10 @@ func (eng *Engine) callEffects(c *ssa.CallCommon, s *sorts, res *Effects, walk f
 			if mt, ok := c.Args[0].Type().Underlying().(*types.Map); ok {
 				addMapVars(s, mt, res.Vars)
 			}
+		case "close":
+			for _, ev := range eng.chanEventsFor("close", c.Args[0]) {
+				addEventVars(ev.Name, res.Vars)
+			}
 		}
 		return
 	}
@@ -913,6 +917,11 @@ func (eng *Engine) EventEffects(f *ssa.Function) (map[string]bool, bool) {
 				c := ci.Common()
 				for _, ev := range eng.eventsFor(c) {
 					res.evs[ev.Name] = true
+				}
+				if bi, ok := c.Value.(*ssa.Builtin); ok && bi.Name() == "close" && len(c.Args) == 1 {
+					for _, ev := range eng.chanEventsFor("close", c.Args[0]) {
+						res.evs[ev.Name] = true
+					}
 				}
 				switch {
 				case c.IsInvoke():
